@@ -9,13 +9,10 @@ package props
 import (
 	"bytes"
 	"fmt"
-	"github.com/ucan-wg/go-ucan/pkg/args"
-	"github.com/ucan-wg/go-ucan/token/invocation"
 	"io"
+	"runtime"
 	"sort"
 	"strings"
-	"time"
-	"verifharness/chain"
 
 	"github.com/ipld/go-ipld-prime/datamodel"
 	"github.com/ipld/go-ipld-prime/node/basicnode"
@@ -307,6 +304,25 @@ func c15Purity(w *mon.W) {
 			}
 		}
 	}
+	// Join / New: the result is copied out at once; long results included
+	longSeg := strings.Repeat("long-segment-", 7) + "end"
+	for _, base := range []string{"/", "/a", "/crud/read", "/" + longSeg} {
+		for _, segs := range [][]string{{"x"}, {"x", "y", "z"}, {longSeg}, {longSeg, "tail"}, {"a", longSeg, longSeg}} {
+			base, segs := base, segs
+			want := ref.CmdFromSegments(append(append([]string{}, ref.CmdSegments(base)...), segs...))
+			thunks = append(thunks, mon.Thunk{Label: "Command.Join", Desc: fmt.Sprintf("%q.Join(%q)", base, segs), F: func() string {
+				c := command.Command(base).Join(segs...)
+				first := strings.Clone(string(c))
+				runtimeGosched()
+				return first + " | reread: " + strings.Clone(string(c)) + fmt.Sprintf(" | covered=%v", command.Command(base).Covers(c))
+			}, Check: func(out string) string {
+				if out == want+" | reread: "+want+" | covered=true" {
+					return ""
+				}
+				return "the reference model gives " + want
+			}})
+		}
+	}
 	w.Purity("command", thunks, pG(w), pR(w))
 }
 
@@ -554,49 +570,4 @@ func describeSpecShort(s *gen.TokenSpec) string {
 // ---- C01 (and, through the same engine, C02-C05): verdicts of many different chains, some
 // sharing their delegation objects and loaders, conforming and deviating in every rule
 
-func c01Purity(w *mon.W) {
-	r := w.Rng
-	var thunks []mon.Thunk
-	for k := 0; k < w.Pick(40, 160); k++ {
-		n := 1 + r.IntN(5)
-		s := chain.FullConformant(r, n, 10)
-		switch k % 4 {
-		case 1:
-			deviate(r, s)
-		case 2:
-			// a widened command or a false statement somewhere
-			if r.IntN(2) == 0 {
-				s.Links[r.IntN(n)].Cmd = "/other"
-			} else {
-				s.Links[r.IntN(n)].Pol = append(s.Links[r.IntN(n)].Pol, ref.Stmt{Kind: "==", Sel: ref.Sel{{Kind: ref.SField, Name: "no-such-argument"}}, Val: ref.Int(1)})
-			}
-		case 3:
-			s.Links[r.IntN(n)].Exp = chain.D(-time.Hour)
-		}
-		b, err := s.Build(r)
-		if err != nil {
-			continue
-		}
-		desc := fmt.Sprint(s.Describe())
-		// two invocation tokens over the same delegations and loader
-		inv2, err := s.MakeInvocation(b, nil, r)
-		if err != nil {
-			inv2 = b.Inv
-		}
-		for vi, inv := range []*invocation.Token{b.Inv, inv2} {
-			for _, hook := range []bool{false, true} {
-				inv, hook, ld := inv, hook, b.Loader
-				thunks = append(thunks, mon.Thunk{Label: "ExecutionAllowed", Desc: fmt.Sprintf("invocation %d hook=%v of %s", vi, hook, mon.Trunc(desc, 1500)), F: func() string {
-					var e error
-					if hook {
-						e = inv.ExecutionAllowedWithArgsHook(ld, func(a args.ReadOnly) (*args.Args, error) { return a.WriteableClone(), nil })
-					} else {
-						e = inv.ExecutionAllowed(ld)
-					}
-					return classifyErr(e)
-				}})
-			}
-		}
-	}
-	w.Purity("chain-verdicts", thunks, pG(w), pR(w))
-}
+func runtimeGosched() { runtime.Gosched() }
